@@ -133,6 +133,9 @@ def shards(tier, seed):
         out.append(('comp', 6, 64))
     out.sort(key=lambda t: -(t[1] if t[1] < 10 else 4))
     out = [('hist', 2, 8), ('hist', 2, 64)] + ([('hist', 3, 8)] if tier == 'thorough' else []) + out
+    # long bodies: very many chunks in one body (nothing in the decoder may add up over the chunks of one request)
+    for nchunks, B in ([(300, 4), (3000, 4), (3000, 102400)] if tier == 'quick' else [(3000, 1), (3000, 4), (12000, 64), (36000, 102400)]):
+        out.append(('long', nchunks, B))
     return [t + (tier,) for t in out]
 
 
@@ -149,7 +152,7 @@ def bounds(tier, seed):
                              'their prefixes/corruptions use full reads'}
 
 
-FLOORS = {'hist_sequences': 500, 'legal_ok': 100, 'short_crlf_read': 10, 'chunk_gt_buffer': 10, 'prefix_rejected': 100,
+FLOORS = {'long_bodies': 12, 'hist_sequences': 500, 'legal_ok': 100, 'short_crlf_read': 10, 'chunk_gt_buffer': 10, 'prefix_rejected': 100,
           'crlf_corruption_rejected': 50, 'corruption_accepted': 10, 'corruption_rejected': 50, 'wsgi_execs': 20}
 
 
@@ -337,9 +340,51 @@ def work_hist(spec):
     return res
 
 
+def long_body(nchunks, variant):
+    payload = bytes((i * 7 + 1) % 256 for i in range(nchunks * (1 if variant < 2 else 3)))
+    step = 1 if variant < 2 else 3
+    ext = [b'', b';ext=aaaaaaaaaaaaaaaa', b''][variant]
+    raw = b''.join(b'%x%s\r\n%s\r\n' % (step, ext, payload[i:i + step]) for i in range(0, len(payload), step)) + b'0\r\n\r\n'
+    return payload, raw
+
+
+def long_fits(variant, B):
+    """the decoder's stated bound: a size line (with its CRLF) is not longer than max_memfile_size"""
+    return [3, 24, 3][variant] <= B
+
+
+def work_long(spec):
+    _, nchunks, B, tier = spec
+    res = core.new_result()
+    om = sut.load()
+    errs = sut.sub('request_pkg.errors')
+    for variant in (0, 1, 2):
+        payload, raw = long_body(nchunks, variant)
+        for runner, name in ((run_component, 'comp'), (run_wsgi, 'wsgi')):
+            case = {'kind': 'long', 'runner': name, 'nchunks': nchunks, 'variant': variant, 'B': B}
+            core.track(res, case, 120)
+            ex = EnvExplorer(merge=False, horizon=40 * (len(raw) + 5))
+            obs = ex.replay(lambda e: runner(om, errs, e, raw, B, False), [])
+            res['states'] += 1
+            res['execs'] += 1
+            res['transitions'] += len(obs['calls'])
+            res['nontrivial'] += 1
+            res['counters']['long_bodies'] += 1
+            v = judge('legal', obs, payload, long_fits(variant, B))
+            res['outcomes'].add('long legal: ' + ('body' if v is None else v[0]))
+            if v is not None:
+                core.add_violation(res, case, f'{nchunks} chunks ({["1 byte each", "1 byte each with a 20-byte extension", "3 bytes each"][variant]}) '
+                                              f'B={B} via {name}: {v[1][:160]}', sig=f'long:{v[0]}')
+    core.untrack()
+    core.add_sample(res, {'kind': 'long', 'chunks': nchunks, 'buffer': B})
+    return res
+
+
 def work(spec):
     if spec[0] == 'hist':
         return work_hist(spec)
+    if spec[0] == 'long':
+        return work_long(spec)
     kind, n, B, tier = spec
     res = core.new_result()
     om = sut.load()
@@ -408,6 +453,17 @@ def work(spec):
 def replay(case):
     om = sut.load()
     errs = sut.sub('request_pkg.errors')
+    if case['kind'] == 'long':
+        payload, raw = long_body(case['nchunks'], case['variant'])
+        runner = run_component if case['runner'] == 'comp' else run_wsgi
+        ex = EnvExplorer(merge=False, horizon=40 * (len(raw) + 5))
+        obs = ex.replay(lambda e: runner(om, errs, e, raw, case['B'], False), [])
+        v = judge('legal', obs, payload, long_fits(case['variant'], case['B']))
+        if v is None:
+            return None
+        return (f'{case["runner"]}: a legal chunked body of {case["nchunks"]} chunks (variant {case["variant"]}: '
+                f'{["1 byte each", "1 byte each with a 20-byte extension", "3 bytes each"][case["variant"]]}; {len(raw)} bytes on the wire) with '
+                f'max_memfile_size={case["B"]}: {v[1][:200]}')
     if case['kind'] == 'hist':
         obs = None
         for raw, mode, payload, what in case['seq']:
